@@ -229,6 +229,24 @@ type strangeBinding struct{ bcl.StructBinding }
 
 // bind: Bind(target, binding) on a target built from the type description; zero or previous contents.
 func suiteBind(c M) M {
+	if n, ok := c["repeat"].(float64); ok && n > 1 {
+		// determinism (C16): the same call on fresh targets, many times; Go randomises map iteration per range
+		delete(c, "repeat")
+		seen := map[string]int{}
+		var first M
+		for i := 0; i < int(n); i++ {
+			r := suiteBind(c)
+			if first == nil {
+				first = r
+			}
+			seen[fmt.Sprint(r["class"], "|", r["obs"], "|", r["errtext"])]++
+		}
+		first["distinct"] = len(seen)
+		if len(seen) > 1 {
+			first["outcomes"] = seen
+		}
+		return first
+	}
 	t := buildType(c["type"].(M))
 	var binding bcl.Binding
 	switch str(c["bkind"]) {
@@ -283,7 +301,6 @@ func suiteBind(c M) M {
 	} else {
 		r["obs"] = "ok?"
 	}
-	// determinism: the same call again on a fresh target gives the same outcome (map order, C16)
 	return r
 }
 
